@@ -220,6 +220,7 @@ def gen_C20(rng, tier):
         cases.append("fb %d" % b)
         # the same classification through BootInformation::framebuffer_tag() and FramebufferTag::buffer_type()
         cases.append(mbi_case(E.mbi([E.t_framebuffer(0x1000, 1, 2, 3, 8, b, E.fb_rgb(1, 2, 3, 4, 5, 6), 0)])))
+        cases.append(mbi_case(E.mbi([E.t_framebuffer(0x2000, 4, 5, 6, 32, b, b"", 0)])))          # no colour information at all
     cases.append("magic")
     return cases, dict(
         rule="conv/elfty: 0..64, every table/range boundary +-2, 2^k+-1, seeded random u32 (70% uniform, 30% around the ELF "
@@ -1371,8 +1372,9 @@ def gen_C18(rng, tier):
     # the accepting side: every admissible stride x 0..20 entries with random descriptor contents, any version, a tag behind
     for d in list(range(40, 137, 8)) + [256]:
         for cnt in (list(range(0, 21)) if tier == "thorough" else [0, 1, 2, 3, 5, 9, 20]):
-            body = b"".join(E.efi_desc(rng.choice([0, 1, 7, 14, 15, 0x80000000, rng.getrandbits(32)]), rng.getrandbits(64), rng.getrandbits(64),
-                                       rng.getrandbits(64), rng.getrandbits(64), d, fill=rng.getrandbits(8)) for _ in range(cnt))
+            bv = lambda: rng.choice([0, 0, 1, 0xFFFFFFFFFFFFFFFF, rng.getrandbits(64), rng.getrandbits(64)])   # incl. zero pages / addresses
+            body = b"".join(E.efi_desc(rng.choice([0, 1, 7, 14, 15, 0x80000000, rng.getrandbits(32)]), bv(), bv(),
+                                       bv(), bv(), d, fill=rng.getrandbits(8)) for _ in range(cnt))
             cases.append(mbi_case(E.mbi([E.t_efi_mmap(d, 1 if rng.random() < 0.9 else rng.choice([0, 2, 0xFFFFFFFF]), body), E.t_cmdline("behind")])))
             count(dist, "accepted_maps")
     return cases, dict(
@@ -1506,11 +1508,12 @@ def gen_elfname(rng, n, dist):
                 ni = 0
                 kinds.append("zero")
             addr = ext_base + delta if k == sh else rng.getrandbits(32)
+            sz = rng.choice([0, 1, 2, 5, rng.getrandbits(16)])       # sh_size: also smaller than the name indices used
             # every entry but the designated one carries a decoy address: a wrong choice of entry is visible
             if es == 40:
-                entries.append(E.elf32_entry(ni, typ, rng.getrandbits(3), addr, 0, rng.getrandbits(16), 0, 0, 8, 0))
+                entries.append(E.elf32_entry(ni, typ, rng.getrandbits(3), addr, 0, sz, 0, 0, 8, 0))
             else:
-                entries.append(E.elf64_entry(ni, typ, rng.getrandbits(3), addr, 0, rng.getrandbits(16), 0, 0, 8, 0))
+                entries.append(E.elf64_entry(ni, typ, rng.getrandbits(3), addr, 0, sz, 0, 0, 8, 0))
         for kd in kinds:
             count(dist, "elfname_" + kd)
         count(dist, "elfname_es%d" % es)
@@ -1558,7 +1561,7 @@ def rand_htag(rng, malformed=0.15):
         size = max(0, nat + rng.choice([-8, -4, -3, -1, 1, 2, 4, 8, 12, 16]))
         if rng.random() < 0.2:
             size = rng.choice([0, 4, 7, 0xFFFFFFFF, 0x80000000])
-    return E.htag(typ, flags, bytes(payload), size=size)
+    return E.htag(typ, flags, bytes(payload), size=size, fill=rng.choice([0, 0, 0xAA, 0xFF, 0x5C]))
 
 
 def gen_hdr_regions(rng, n, dist, malformed=0.15):
